@@ -410,6 +410,122 @@ fn run_c04(input: RunInput) -> ScenFuture {
     })
 }
 
+pub static C04_EXHAUSTIVE: Scenario = Scenario {
+    id: "C04",
+    name: "c04-direct-exhaustive",
+    run: run_c04_exhaustive,
+    // 4 connection configurations x all sequences of length 1..=3 (quick) / 1..=5 (thorough) over an
+    // alphabet of 9 operations
+    quick_runs: 4 * (9 + 81 + 729),
+    thorough_runs: 4 * (9 + 81 + 729 + 6561 + 59049),
+    rule: "bounded-exhaustive: every sequence of 1-3 (quick) / 1-5 (thorough) operations from {add c0, add c1, add c2, remove peer of c0, remove peer of c2, handler-exit c0, c1, c2, subscribe} over 4 fixed configurations of three real connections to one or two peers (all origin combinations), with a subscription taken first; checked against the reference map after every operation; the run index enumerates the space completely; distinct = each sequence; non-trivial = a replacement, rejected add or late handler exit occurred",
+    real: &["anemo ActivePeers (add / remove / remove_with_stable_id / subscribe / peers) and tie-break", "anemo Endpoint + Connection, quinn, rustls (real connections)"],
+    stubbed: &["connection manager event loop and request handlers (operations are issued by the harness in their place)", "UDP socket, clock (fabric, virtual time)"],
+};
+
+fn run_c04_exhaustive(input: RunInput) -> ScenFuture {
+    Box::pin(async move {
+        let w = World::new(&input, LinkCfg::clean(200, 1_000));
+        // decode the run index: configuration, then sequence length, then base-9 digits
+        let config = (input.index % 4) as usize;
+        let mut rest = input.index / 4;
+        let mut len = 1u32;
+        while rest >= 9u64.pow(len) {
+            rest -= 9u64.pow(len);
+            len += 1;
+        }
+        let mut digits = Vec::new();
+        for _ in 0..len {
+            digits.push((rest % 9) as usize);
+            rest /= 9;
+        }
+        let own = endpoint(&w, 1);
+        let remotes = [endpoint(&w, 2), endpoint(&w, 3)];
+        // (remote index, dialed by own?) for c0, c1, c2
+        let layout: [(usize, bool); 3] = match config {
+            0 => [(0, true), (0, false), (1, true)],
+            1 => [(0, false), (0, true), (0, false)],
+            2 => [(0, true), (0, true), (1, false)],
+            _ => [(0, false), (0, false), (0, true)],
+        };
+        let mut conns = Vec::new();
+        let mut remote_handles = Vec::new();
+        for (ri, by_own) in layout {
+            let c = if by_own { connect(&own, &remotes[ri]).await } else { connect(&remotes[ri], &own).await.map(|x| (x.1, x.0)) };
+            match c {
+                Ok((c, other)) => {
+                    conns.push(c);
+                    remote_handles.push(other);
+                }
+                Err(e) => {
+                    w.harness_error(format!("direct connection failed: {e}"));
+                    return w.finish();
+                }
+            }
+        }
+        let st: Shared = std::rc::Rc::new(std::cell::RefCell::new(Direct {
+            own: own.id,
+            peers: DirectPeers::new(4096),
+            conns,
+            map: BTreeMap::new(),
+            closed: BTreeSet::new(),
+            added: BTreeSet::new(),
+            registered: BTreeSet::new(),
+            model_events: Vec::new(),
+            replacements: Vec::new(),
+            subs: Vec::new(),
+            ops: Vec::new(),
+            pending: Default::default(),
+            interesting: false,
+            preempted: 0,
+        }));
+        exec(&st, &w, Op::Subscribe, false);
+        for d in digits {
+            let op = match d {
+                0..=2 => {
+                    // a connection is added at most once (as the connection manager does)
+                    if !st.borrow_mut().added.insert(d) {
+                        continue;
+                    }
+                    Op::Add(d)
+                }
+                3 => Op::Remove(0, DisconnectReason::Requested),
+                4 => Op::Remove(2, DisconnectReason::Requested),
+                5..=7 => {
+                    // the handler of a connection exits only if it was started (add returned true)
+                    if !st.borrow().registered.contains(&(d - 5)) {
+                        continue;
+                    }
+                    Op::HandlerExit(d - 5, DisconnectReason::ConnectionClosed)
+                }
+                _ => Op::Subscribe,
+            };
+            exec(&st, &w, op, false);
+            compare(&st, &w);
+            if w.violated() {
+                break;
+            }
+        }
+        let s = st.borrow();
+        for o in &s.ops {
+            w.event(o.clone());
+        }
+        w.event(format!("cfg{config}"));
+        if s.interesting {
+            w.mark_overlap();
+        }
+        w.sample("sequence", json!({"configuration": config, "ops": s.ops}));
+        drop(s);
+        let out = w.finish();
+        drop(remote_handles);
+        own.ep.close();
+        for rm in &remotes {
+            rm.ep.close();
+        }
+        out
+    })
+}
+
 fn run_c05(input: RunInput) -> ScenFuture {
     Box::pin(async move {
         let w = World::new(&input, LinkCfg::clean(200, 2_000));
